@@ -111,6 +111,15 @@ def rule_B1(ctx):
                 is_str = not t_
         ok = ok and is_str is not None and p.ret is not None and p.ret.key() == want_e[is_str]
     ctx.ob("B1", enc, "encoding converts ASCII -> AKAI over every byte", ok, f"{[p.ret.key() if p.ret is not None else None for p in eps]}"[:300], inst="encode-wiring")
+    # the construct adapter hands the field bytes / the text to the two converters unchanged (blanks inside and at the start of a
+    # name are characters of the name; only the trailing pad is removed, by NullStripped, before the adapter sees the bytes)
+    for q, want_r in (("AkaiString._decode", "char_akai_to_ascii({0})"), ("AkaiString._encode", "char_ascii_to_akai({0})")):
+        fa = ctx.fn(AS, q, "B1")
+        ob_ = fa.args.args[1].arg
+        rps = [p_ for p_ in run_paths(ctx, fa, rule="B1") if p_.end == "return"]
+        ok = bool(rps) and all(p_.ret is not None and p_.ret.key() == want_r.format(ob_) for p_ in rps)
+        ctx.ob("B1", fa, f"{q} returns exactly what the converter gives for the whole field", ok,
+               f"{[p_.ret.key() if p_.ret is not None else None for p_ in rps]}"[:200], inst=f"adapter:{q}")
     from .sem import returned_map
     cv = ctx.fn(AS, "_char_format_convert", "B1")
     pa = [a_.arg for a_ in cv.args.args]
